@@ -54,7 +54,54 @@ const (
 )
 
 var alphabet = []string{opAdd0, opAdd1, opWrongPre, opNoParent, opDup, opRm, opRm2, opRestart,
-	opIdH0, opIdHLast, opIdHNext, opIdHNext1, opIdKLast, opIdKCount, opIdGen, opIdEmpty, opId1Byte}
+	opIdH0, opIdHLast, opIdHNext, opIdHNext1, opIdKLast, opIdKCount, opIdGen, opIdEmpty, opId1Byte,
+	opAdd0GhCount, opAdd0GhPrev, opAdd0GhNext, opAdd0GhBig, opAdd1GhNext, opAdd1GhOne, opAdd0WorkDismiss}
+
+// Field dimension of add-group: "<valid add>.<variant>" is the same group as the valid add
+// (same id, links, header hash) but the incoming record carries values in fields that
+// AddGroup does not validate and that are outside the header hash: GroupHeight (the chain
+// assigns it) and WorkHeight / DismissHeight (AddGroup computes them).  The chain that is
+// built must not depend on them: the model element is the one of the plain add.
+const (
+	opAdd0GhCount     = "add0.gh-count"    // GroupHeight = count (what the chain would assign)
+	opAdd0GhPrev      = "add0.gh-prev"     // GroupHeight = count-1, the height of the current last group
+	opAdd0GhNext      = "add0.gh-next"     // GroupHeight = count+1
+	opAdd0GhBig       = "add0.gh-big"      // GroupHeight = 2^40
+	opAdd1GhNext      = "add1.gh-next"     // alternative 1, GroupHeight = count+1
+	opAdd1GhOne       = "add1.gh-1"        // alternative 1, GroupHeight = 1, an existing inner height
+	opAdd0WorkDismiss = "add0.workdismiss" // WorkHeight / DismissHeight pre-filled, GroupHeight = count+2
+)
+
+// splitVariant returns the plain op and the field variant ("" for ops without one).
+func splitVariant(op string) (base, variant string) {
+	if i := strings.IndexByte(op, '.'); i > 0 {
+		return op[:i], op[i+1:]
+	}
+	return op, ""
+}
+
+// carryFields sets the unvalidated fields of the incoming record g for a field variant.
+func carryFields(g *types.Group, variant string, count uint64) {
+	switch variant {
+	case "":
+	case "gh-count":
+		g.GroupHeight = count
+	case "gh-prev":
+		g.GroupHeight = count - 1
+	case "gh-next":
+		g.GroupHeight = count + 1
+	case "gh-big":
+		g.GroupHeight = 1 << 40
+	case "gh-1":
+		g.GroupHeight = 1
+	case "workdismiss":
+		g.GroupHeight = count + 2
+		g.Header.WorkHeight = 7
+		g.Header.DismissHeight = 9
+	default:
+		panic("unknown field variant " + variant)
+	}
+}
 
 // Store layout the ID dimension aims at.  These are the repository's constants
 // (core.lastGroupKey, core.groupCountKey, core.generateKey = 8-byte big endian); they are
@@ -83,6 +130,7 @@ func opIndex(name string) int {
 }
 
 func opClass(op string, accepted bool) string {
+	op, _ = splitVariant(op)
 	switch op {
 	case opAdd0, opAdd1:
 		if accepted {
@@ -130,6 +178,8 @@ func (m *refGroups) enabled(op string) bool {
 		return len(m.list) >= 3
 	case opIdHLast:
 		return !m.oddUsed && len(m.list) >= 2 // with one group it is id-h0
+	case opAdd1GhOne:
+		return len(m.list) >= 3 // height 1 is an inner height
 	}
 	if isOddId(op) {
 		return !m.oddUsed
@@ -166,6 +216,7 @@ var memberIds = [][]byte{gid(0xE0, 5), gid(0xE1, 5), gid(0xE2, 5)}
 
 // build returns a freshly allocated group for an add-like op in the current model state.
 func (m *refGroups) build(op string) *types.Group {
+	op, _ = splitVariant(op) // the field variant only concerns the incoming copy (applyOp)
 	h := len(m.list)
 	g := &types.Group{Header: &types.GroupHeader{}}
 	hd := g.Header
@@ -243,12 +294,14 @@ type stepResult struct {
 func applyOp(m *refGroups, op string) stepResult {
 	r := stepResult{Op: op, OddListed: m.oddListed}
 	kind := op
-	if isOddId(op) {
+	_, variant := splitVariant(op)
+	if isOddId(op) || variant != "" {
 		kind = "add"
 	}
 	switch kind {
 	case "add", opAdd0, opAdd1, opWrongPre, opNoParent, opDup:
 		g := m.build(op)
+		carryFields(g, variant, uint64(len(m.list)))
 		var err error
 		p, v, site := fw.Try(func() { err = core.GetGroupChain().AddGroup(g) })
 		if p {
